@@ -406,7 +406,9 @@ func RunOne(b Behaviour, tw *trace.Writer) error {
 	}
 	s := &sim{w: w, ctx: world.Ctx(), pools: map[string]*v1.NodePool{}, lookupFail: map[string]bool{}}
 	s.kube = s.wrap(w.Client)
-	tw.Begin(trace.M{"module": "Reapers", "policies": pols, "launchTimeout": lt, "regTimeout": 900, "tag": b.Tag})
+	// the behaviour itself rides along as a string, so that a failing trace is a self-contained replay
+	beh, _ := json.Marshal(b)
+	tw.Begin(trace.M{"module": "Reapers", "policies": pols, "launchTimeout": lt, "regTimeout": 900, "tag": b.Tag, "beh": string(beh)})
 	w.Sink = tw.Emit
 	w.EnvCreate(world.NodeClass())
 	s.restart()
